@@ -125,6 +125,20 @@ def stream_part():
     return {"variant": "streams", "rust": rust, "harnesses": hs, "stubbing": True}
 
 
+def device_part():
+    """Device-update timestamp clause: the C08 state-projection harnesses (which assert value AND newest contributing time) under C03 tags."""
+    import itertools
+    from . import c08
+    rust = c08.RUST.replace("mod c08 {", "mod c03d {").replace("fn c08_", "fn c03d_").replace('"C08.', '"C03.devices.')
+    b2 = list(itertools.product([0, 1], repeat=2))
+    hs = [Harness("c03d_invert", "e2", unwind=4, skeletons=b2, clause="inverter update: projected states stamped with the newest contributing time"),
+          Harness("c03d_gear_train", "e2", unwind=4, skeletons=b2, clause="gear train update: newest contributing time"),
+          Harness("c03d_axle_2", "e2", unwind=8, skeletons=list(itertools.product([0, 1], repeat=2)), clause="axle (2 terminals): newest time among terminals holding data, also for negative times"),
+          Harness("c03d_axle_3", "e2", unwind=8, skeletons=list(itertools.product([0, 1], repeat=3)), clause="axle (3 terminals)"),
+          Harness("c03d_differential", "e2", unwind=4, skeletons=[(m,) + p for m in range(4) for p in [(1, 1, 1)]], clause="differential, all branches present, each mode: newest contributing time")]
+    return {"variant": "devices", "rust": rust, "harnesses": hs}
+
+
 def spec(ctx):
     impls, unknown = parse(core.REPO)
     tr_arms = [arm(im, "Tr") for im in impls if im["lhs"] == "T"]
@@ -142,12 +156,12 @@ def spec(ctx):
         Harness("c03_replace", "e1", clause="replace_if_older_than, replace_if_none_or_older_than(_option)"),
     ]
     return {
-        "crates": [{"rust": rust, "harnesses": hs}, stream_part()],
+        "crates": [{"rust": rust, "harnesses": hs}, stream_part(), device_part()],
         "problems": ["unclassified Datum impl: " + u for u in unknown],
         "functions": ["%d operator impls of Datum parsed from datum.rs" % len(impls), "latest", "Datum::replace_if_older_than",
                       "OptionDatumExt::{replace_if_none_or_older_than, replace_if_none_or_older_than_option}"],
         "bounds": {"timestamps": "all i64 pairs", "payload": "trace payload (any T by parametricity) + f32/State/Command all bit patterns"},
         "skeleton_space": {"generic arms": len(tr_arms), "f32 arms": len(f_arms), "State/Command arms": len(sc_arms)},
-        "assumptions": ["device-update timestamp clauses are asserted in the C08 and C13 checks (same machinery)"],
+        "assumptions": ["device COMMAND-relay timestamps are asserted in the C13 check (same machinery)"],
         "not_decided": [],
     }
